@@ -37,8 +37,6 @@ class Values:
                     s.add(n.target.id)
                 elif isinstance(n, ast.Delete):
                     s |= {t.id for t in n.targets if isinstance(t, ast.Name)}
-                elif isinstance(n, ast.NamedExpr) and isinstance(n.target, ast.Name):
-                    s.add(n.target.id)
                 elif isinstance(n, (ast.Global, ast.Nonlocal)):
                     s |= set(n.names)
             self._aug[f.qual] = s
@@ -129,6 +127,9 @@ class Values:
                 if len(real) == 1:
                     return self.trace(f, env, real[0], _depth + 1)
             return f, env, e
+        if isinstance(e, ast.Await) and isinstance(strip_cast(e.value), ast.Call) and id(strip_cast(e.value)) in self.an.spliced_at:
+            # awaiting a coroutine helper that is spliced in: what it returns
+            return self.trace(f, env, strip_cast(e.value), _depth + 1)
         if isinstance(e, ast.Call):
             t = self.an.spliced_at.get(id(e))
             if t is not None:
@@ -157,6 +158,20 @@ class Values:
                 return n
 
         return " ".join(ast.unparse(Sub().visit(tree)).split())
+
+    def canon_call(self, f: FuncInfo, env, e: ast.AST) -> str:
+        """canon_at, with a call of a spliced helper that consists of a single `return <expr>` replaced by that expression"""
+        from ..cfg import bind_args
+
+        e = strip_cast(e)
+        if isinstance(e, ast.Name):
+            e = self.resolve(f, e)
+        t = self.an.spliced_at.get(id(e)) if isinstance(e, ast.Call) else None
+        if t is not None:
+            body = [st for st in t.node.body if not (isinstance(st, ast.Expr) and isinstance(st.value, ast.Constant))]
+            if len(body) == 1 and isinstance(body[0], ast.Return) and body[0].value is not None:
+                return self.canon_call(t, bind_args(e, t, f, env), body[0].value)
+        return self.canon_at(f, env, e)
 
     def tuple_return_var(self, f: FuncInfo, env, name: str):
         """`a, b = helper(...)` with a spliced helper ending in `return x, y`: for name `a` the helper's frame and its
